@@ -26,13 +26,7 @@ type unroller struct {
 	bindings map[string]cty.Value
 	n        int
 	stuck    string // why the unrolled form does not exist ("" = it does)
-	marked   []markedForEach
 	unknowns int
-}
-
-type markedForEach struct {
-	Empty bool
-	Top   bool
 }
 
 func (u *unroller) evalCtx() *hcl.EvalContext {
@@ -85,8 +79,7 @@ func (u *unroller) items(items []gItem, scope map[string]string, ind string, b *
 			}
 			if v.IsMarked() {
 				uv, _ := v.Unmark()
-				empty := uv.IsKnown() && !uv.IsNull() && uv.CanIterateElements() && uv.LengthInt() == 0
-				u.marked = append(u.marked, markedForEach{Empty: empty, Top: top})
+				_ = uv
 				u.stuck = "for_each-marked"
 				return
 			}
@@ -350,17 +343,39 @@ func runOracle(c *genCase, text string, rep *hv.Report) []oracleResult {
 	}
 
 	// ---- marks ---------------------------------------------------------------------------------
-	if len(u.marked) > 0 && u.marked[0].Top && conf == "" && !d1.HasErrors() {
-		// the first top-level marked for_each of a requested type: something of the result
-		// must carry a mark
-		if !v1.ContainsMarked() {
-			if u.marked[0].Empty {
-				fail("marks-lost-empty-for_each", "a marked empty for_each leaves no mark in the decoded value: "+hv.DumpVal(v1))
-			} else {
-				fail("marks-lost", "a marked non-empty for_each leaves no mark in the decoded value: "+hv.DumpVal(v1))
+	// every top-level dynamic block of a requested type whose for_each is marked: the mark
+	// must be found somewhere in the decoded value.  A marked EMPTY collection generates
+	// nothing that could carry it (known finding, classified separately).
+	if conf == "" && !d1.HasErrors() {
+		have := map[string]bool{}
+		cty.Walk(v1, func(_ cty.Path, x cty.Value) (bool, error) {
+			for m := range x.Marks() {
+				have[fmt.Sprint(m)] = true
 			}
-		} else {
-			rep.Hist("oracle:marks-present")
+			return true, nil
+		})
+		for _, it := range c.Items {
+			d := it.Dyn
+			if d == nil || d.malformed() {
+				continue
+			}
+			mu := &unroller{ectx: c.ECtx, bindings: map[string]cty.Value{}}
+			fv, ok := mu.eval(renderT(d.ForEach, nil))
+			if !ok || !fv.IsMarked() {
+				continue
+			}
+			uv, ms := fv.Unmark()
+			empty := uv.IsKnown() && !uv.IsNull() && uv.CanIterateElements() && uv.LengthInt() == 0
+			for m := range ms {
+				switch {
+				case have[fmt.Sprint(m)]:
+					rep.Hist("oracle:marks-present")
+				case empty:
+					fail("marks-lost-empty-for_each", fmt.Sprintf("dynamic %q: the marked EMPTY for_each %s leaves no mark %v in the decoded value: %s", d.Type, d.ForEach, m, hv.DumpVal(v1)))
+				default:
+					fail("marks-lost", fmt.Sprintf("dynamic %q: the marked for_each %s leaves no mark %v in the decoded value: %s", d.Type, d.ForEach, m, hv.DumpVal(v1)))
+				}
+			}
 		}
 	}
 
